@@ -1426,7 +1426,9 @@ fn build_moov_box(
     let movie_duration_ms = (u128::from(movie_duration_media) * u128::from(MOVIE_TIMESCALE)
         / u128::from(MEDIA_TIMESCALE)) as u64;
 
-    let mvhd_payload = build_mvhd_payload(movie_duration_ms);
+    // next_track_ID must be larger than every track ID in use (video = 1, audio = 2).
+    let next_track_id = if audio.is_some() { 3 } else { 2 };
+    let mvhd_payload = build_mvhd_payload(movie_duration_ms, next_track_id);
     let mvhd_box = build_box(b"mvhd", &mvhd_payload);
     let trak_box = build_trak_box(video, video_tables, video_config, metadata);
 
@@ -2412,7 +2414,7 @@ fn build_ftyp_box() -> Vec<u8> {
     build_box(b"ftyp", &payload)
 }
 
-fn build_mvhd_payload(duration_ms: u64) -> Vec<u8> {
+fn build_mvhd_payload(duration_ms: u64, next_track_id: u32) -> Vec<u8> {
     let mut payload = Vec::new();
     if let Ok(duration_ms) = u32::try_from(duration_ms) {
         payload.extend_from_slice(&0u32.to_be_bytes()); // version 0 + flags
@@ -2451,7 +2453,7 @@ fn build_mvhd_payload(duration_ms: u64) -> Vec<u8> {
     for _ in 0..6 {
         payload.extend_from_slice(&0u32.to_be_bytes()); // pre_defined
     }
-    payload.extend_from_slice(&2u32.to_be_bytes()); // next_track_ID
+    payload.extend_from_slice(&next_track_id.to_be_bytes()); // next_track_ID
     payload
 }
 
